@@ -10,7 +10,7 @@ state of order len(ref).  N up to 200: ObsC13.tla.
 import numpy as np
 
 from .. import core, material as M, tlc, obs
-from ..kern_util import call_guard, cmp_vec, cmp_scalar, entry_variants, live_object_dev
+from ..kern_util import fresh, call_guard, cmp_vec, cmp_scalar, entry_variants, live_object_dev, np_int
 
 CRITERIA = ('AIC', 'AICc', 'KIC', 'FPE', 'AKICc', 'MDL')
 
@@ -38,7 +38,7 @@ def replay_state(chk, st, cplx, table):
     chk._c13_counter = counter + 1
     for ename, x, tol in entry_variants(vals, cplx, counter, full=chk.tier != 'quick'):
         case = {'x': x, 'entry': ename, 'order': q, 'expect': {'a': expA, 'rho': expRho, 'ref': expK}}
-        ok, res = call_guard(arburg, x if isinstance(x, list) else x.copy(), q)
+        ok, res = call_guard(arburg, fresh(x), np_int(q, counter))
         chk.evaluations += 1
         if not ok:
             chk.violation('C13:arburg:%s:raises:%s' % (mode, ename), 'arburg raises %r on non-degenerate data (%s input)' % (res, ename), case)
@@ -87,7 +87,7 @@ def criteria_checks(chk, table, cplx):
             continue
         xa = np.array(M.cq_seq(x), dtype=complex) if cplx else np.array(M.real_list(x), dtype=float)
         for name in CRITERIA:
-            ok, res = call_guard(arburg, xa.copy(), p, name)
+            ok, res = call_guard(arburg, xa.copy(), np_int(p, len(name) + p), name)
             chk.evaluations += 1
             if not ok:
                 chk.violation('C13:criteria:%s:raises:%s' % (name, mode), 'arburg(criteria=%s) raises %r' % (name, res),
